@@ -111,11 +111,27 @@ Theorem C10_ternary_inputs : ∀ C nodes fo R μ, lint_clean C → closed (c_g C
 Proof. intros C nodes fo R μ H1 H2 H3. by destruct (model_shape C nodes fo R μ H1 H2 H3) as (_ & _ & ?). Qed.
 Print Assumptions C10_ternary_inputs.
 
-(* still NOT proved (kept visible): the result is lint-clean.  Clause 4 of the loop invariant (every node of R is a node of c, a
-   companion, or a helper with type Or/Nor/And/Not, a non-empty fan-in and no dot in its name) contains what is needed; the
-   derivation of lint_clean R from it is not done.  Decided per generated case by the oracle (lint_cleanb R in `holds`) and by C20. *)
-Definition C10_ternary_lint_full : Prop := ∀ C nodes fo R μ,
-  lint_clean C → closed (c_g C) → ternary C nodes fo = Ok (R, μ) → lint_clean R.
+(* the result is lint-clean (every node of R is a node of c with its unchanged entry, a companion, or a helper; each passes
+   every lint rule) *)
+Theorem C10_ternary_lint : ∀ C nodes fo R μ, lint_clean C → closed (c_g C) → ternary C nodes fo = Ok (R, μ) → lint_clean R.
+Proof. exact model_lint. Qed.
+Print Assumptions C10_ternary_lint.
+
+(* THE FULL STATEMENT (DESIGN.md appendix C, with the networkx invariant `closed` made explicit and bb_free / no_x implied by
+   the Ok outcome of the model): nothing of it is left unproved *)
+Theorem C10_ternary_full : ∀ C nodes fo R μ, lint_clean C → closed (c_g C) → ternary C nodes fo = Ok (R, μ) →
+  bb_free C ∧ dom μ = dom (c_g C) ∧ c_g C ⊆ c_g R ∧ lint_clean R ∧
+  inputs (c_g R) = inputs (c_g C) ∪ set_map (mu_at μ) (inputs (c_g C)) ∧
+  ∀ v, consistent (c_g R) v → kconsistent (c_g C) (kof μ v).
+Proof.
+  intros C nodes fo R μ H1 H2 H3.
+  destruct (model_kleene C nodes fo R μ H1 H2 H3) as (Hd & Hs & _ & Hk).
+  destruct (model_shape C nodes fo R μ H1 H2 H3) as (_ & _ & Hi).
+  destruct (model_inv C nodes fo R μ H1 H2 H3) as (Hb & _).
+  split; [exact Hb|]. split; [done|]. split; [done|]. split; [by eapply model_lint|]. split; done.
+Qed.
+Print Assumptions C10_ternary_full.
+
 (* what follows from tern_shape alone (kept: it is what `agree` checks on the recorded result via shapeb) *)
 Theorem C10_ternary_partial : ∀ C nodes fo R μ, ternary C nodes fo = Ok (R, μ) →
   bb_free C ∧ bb_free R ∧ μ = mapping (c_g C) ∧ dom μ = dom (c_g C) ∧
